@@ -1,5 +1,5 @@
 """C04 - rejected writes leave no trace; multi-entity writes all-or-nothing."""
-from pv import histrun, monitors
+from pv import conc, histrun, monitors
 from pv.gen.failplace import FailPlace
 from pv.gen.history import HistoryGen, Names
 
@@ -12,10 +12,18 @@ META = {
             'current state whose n-th entry is made bad by each reason); one '
             'evaluation = one rejected write whose before/after dumps are '
             'compared (generations included); distinct = (route, rejection '
-            'reason, position n of m, new/existing consumer mix)',
+            'reason, position n of m, new/existing consumer mix); plus a '
+            'concurrent part: the C05-C07 scenario catalogue and the '
+            'provider-tree races run under the transaction-granularity '
+            'scheduler; for every request answered 4xx in an explored '
+            'interleaving the net effect of ALL commits made by its own '
+            'thread (dumps around each) must be empty',
     'floors': {'rejected_writes_judged': 200, 'accepted_multi_judged': 50,
-               'fp_requests': 100},
-    'assumptions': ['SQLite backend', 'sequential requests',
+               'fp_requests': 100, 'concurrent_schedules': 100,
+               'concurrent_rejected_judged': 100},
+    'assumptions': ['SQLite backend',
+                    'sequential requests (first part); transaction-'
+                    'granularity interleavings of 2-3 requests (second)',
                     'residue admitted: project, user, consumer-type rows and '
                     'unassociated aggregate uuid records'],
     'shard_timeout': 3000,
@@ -42,13 +50,25 @@ class Mixed(object):
         return self.h.next(d)
 
 
+CONC = conc.invariant_scenarios(include_tree=True, sample_c05=80)
+
+
 def plan(tier, seed, scale):
-    return histrun.plan_seeds(tier, seed, scale, 320, 6400,
-                              20 if tier == 'quick' else 100,
-                              extra={'steps': 70 if tier == 'quick' else 90})
+    shards = histrun.plan_seeds(tier, seed, scale, 320, 6400,
+                                20 if tier == 'quick' else 100,
+                                extra={'steps': 70 if tier == 'quick'
+                                       else 90})
+    n = len(CONC)
+    for sh in conc.plan_scenarios(n, tier, seed, per=max(1, (n + 11) // 12)):
+        sh['conc'] = True
+        shards.append(sh)
+    return shards
 
 
 def run_shard(spec, res):
+    if spec.get('conc'):
+        return conc.run_invariants('C04', CONC, spec, res,
+                                   per_request=monitors.c04_concurrent)
     svc = histrun.Service()
     try:
         for i in range(spec['first'], spec['first'] + spec['count']):
